@@ -239,7 +239,7 @@ def run(rec, tier, seed):
                 "pair coefficients; short and long coefficient texts) x 3 cells; two-step workflows (second replacement on the result); the documented "
                 "CIF workflow (structure with atom types but no pair table). Reference model identifies atoms by position and compares the multiset of "
                 "(kind, atoms, coefficient text) and per-atom label/element/mass/pair/charge/group. distinct = specs")
-    pairs = ['shrink-shared', 'grow-planar', 'swap-element', 'disjoint', 'identical', 'grow-interleaved']
+    pairs = ['shrink-shared', 'grow-planar', 'swap-element', 'disjoint', 'identical', 'grow-interleaved', 'nudge-swap']
     for pi, pair in enumerate(pairs):
         for ci, cell in enumerate(['cubic', 'tri+', 'tri-']):
             for variant in (0, 1, 2):
